@@ -16,6 +16,7 @@ import (
 	"path/filepath"
 	"sort"
 	"strings"
+	"time"
 
 	"verif/mc"
 )
@@ -95,6 +96,12 @@ func main() {
 				nTargets++
 			}
 			r.Seq(ps.Name, scenario(ps))
+		}
+		// the soft deadline is a safety net for a loaded machine (about 8 CPU minutes quick, 25
+		// thorough; 35 s / 100 s wall on 16 idle cores)
+		r.Deadline = 12 * time.Minute
+		if r.Thorough() {
+			r.Deadline = 40 * time.Minute
 		}
 		r.Rule = "one scenario = one scratch package (working package + package of the field types + third package) holding a batch of derive targets; its single execution runs gombok from the tree under test, compiles the result with a generated law test and evaluates every law over all pairs (triples for transitivity/associativity) of Dom(type) = every combination of 2-3 values per field; an execution is non-trivial when at least one target was law-checked; states = law-checked targets, transitions = law evaluations"
 		r.Assumptions = []string{
